@@ -31,6 +31,7 @@ def plan(tier, seed):
 
 def run(shard, ctx):
     if shard.get("kind") == "threads":
+        dlms_common.digest_twins(ID, "aidon", ctx)
         for _ in range(shard["rounds"]):
             dlms_common.run_threads(ID, dlms_gen.aidon_case, ctx)
         return
